@@ -96,6 +96,54 @@ func c08Child(args []string) int {
 			}
 			wg.Wait()
 		}
+		// second epoch in the same server process: every symbolic link of the
+		// tree is re-pointed (link i gets the target link i+1 had), then the same
+		// requests are made by a new session. The verdict has to follow the tree
+		// as it is now.
+		var linkIdx []int
+		for k, nd := range c.Nodes {
+			if nd.Kind == "symlink" {
+				linkIdx = append(linkIdx, k)
+			}
+		}
+		if len(linkIdx) >= 2 {
+			res.Repointed = len(linkIdx)
+			for q, k := range linkIdx {
+				nd, from := c.Nodes[k], c.Nodes[linkIdx[(q+1)%len(linkIdx)]]
+				p := filepath.Join(root, nd.Path)
+				os.Remove(p)
+				t := from.Target
+				if !from.Raw {
+					t = filepath.Join(root, from.Target)
+				} else if !filepath.IsAbs(t) {
+					// a relative target is relative to the link's own directory
+					t = filepath.Join(filepath.Dir(filepath.Join(root, from.Path)), t)
+				}
+				os.Symlink(t, p)
+			}
+			u3, err := user.New(c.UserName, "127.0.0.1:5557")
+			for _, rq := range c.Requests {
+				p := c08Subst(rq, root)
+				a := c08Answer{Request: p}
+				if err == nil {
+					a.Got = u3.HasFilePermission(p, "readfiles")
+				}
+				resolved, rerr := filepath.EvalSymlinks(p)
+				if rerr == nil {
+					resolved, rerr = filepath.Abs(resolved)
+				}
+				if rerr != nil {
+					a.ResolveErr = true
+				} else {
+					a.Resolved = resolved
+					if st, e := os.Lstat(resolved); e == nil && st.Mode().IsRegular() {
+						a.Regular = true
+					}
+				}
+				a.GotConc = a.Got
+				res.Answers2 = append(res.Answers2, a)
+			}
+		}
 		return res
 	})
 }
